@@ -360,7 +360,13 @@ def _def_case(ch):
     elif kind == "macro-named-like-native":
         fault["macros"].append({"name": ch.pick(names), "params": [], "body": ["seq", []]})
     elif kind == "unknown-gate":
-        fault["body"].append(["g", "NoSuchGate", [["ix", reg, 0]]])
+        # also names that LOOK derived from a native gate: the set in force has no idle or
+        # stretched gates, so they are as unknown as any other name
+        g0 = ch.pick(["U1", "N1"])
+        uname = ch.pick(["NoSuchGate", "I_" + g0, g0 + "_stretched", "I_I_" + g0, g0.lower()])
+        uargs = [["ix", reg, 0]] + ([["n", 1]] if g0 == "N1" and uname != "NoSuchGate" else [])
+        fault["body"].append(["g", uname, uargs])
+        desc = "unknown-gate"
     elif kind == "arity":
         g = ch.pick(names)
         sig = gates.KINDS[g]
@@ -415,7 +421,8 @@ def _fault_present(case):
     if d == "macro-named-like-native":
         return any(m["name"] in gates.KINDS for m in f["macros"])
     if d == "unknown-gate":
-        return any(s[1] == "NoSuchGate" for s in gates_used)
+        known = {"U1", "R1", "N1", "U2", "P2", "prepare_all", "measure_all"} | {m["name"] for m in f["macros"]}
+        return any(s[1] not in known for s in gates_used)
     if d.startswith("kind-after-substitution"):
         return any(m["name"] == "mzz" and m["params"] == ["pz"] and m["body"][1] for m in f["macros"]) and any(s[1] == "mzz" and s[2] == [["n", 0.5]] for s in gates_used)
     if d == "arity" or d.startswith("kind:"):
